@@ -5,7 +5,7 @@
    `hash` (the first four bytes of md5) is universally quantified. *)
 From Coq Require Import String List NArith Bool.
 From Coq.Strings Require Import Byte.
-From SeataV Require Import Base.Bytes Remoting.LbModel Remoting.LbProofs.
+From SeataV Require Import Base.Bytes Remoting.LbModel Remoting.LbProofs Remoting.GetXidProofs Gen.GetXidTable.
 Import ListNotations.
 Open Scope N_scope.
 
@@ -45,12 +45,24 @@ Theorem C19_xid : forall hash evs st xid a c,
   exists s, c = Some (s_id s) /\ In s (st_sess st) /\ s_closed s = false /\ s_addr s = a.
 Proof. exact (fun hash evs st xid a c _ => candidates_xid hash st xid a c). Qed.
 
+(* the XID clause in the integrated path (SendSync/SendAsync -> selectSession -> getXid):
+   at the table regenerated from the source on every run, every message type with an Xid
+   field that the client sends is understood by getXid (named, or reached by its reflection
+   fallback), so C19_xid applies to it; GlobalLockQueryRequest is one of them *)
+Theorem C19_getxid_covers : forall t,
+  In t go_xid_messages -> go_getxid_fallback = true \/ In t go_getxid_named.
+Proof. exact go_getxid_covers. Qed.
+
+Theorem C19_getxid_lock_query : In "GlobalLockQueryRequest"%string go_xid_messages.
+Proof. exact go_xid_messages_has_lock_query. Qed.
+
 (* Re-announcement (FULL statement; the model follows the code after the fix "a newly
    opened session is told the registered resources again").  Over ALL histories of
    register-resource (any branch type) / connection lost (session still open or already
    closed by the peer) / reconnect (to any address, with a first write that succeeds or
    fails) events: every session that gets established carries RegisterTM and, for every
-   resource the client holds, a RegisterRM naming it *)
+   resource the client holds — also one whose FIRST announcement failed (the resource is
+   cached before the send, whatever becomes of it) — a RegisterRM naming it *)
 Theorem C19_reannounce : forall evs c sent,
   In (c, sent) (snd (crun cinit evs)) ->
   In RegisterTM sent /\
@@ -67,11 +79,13 @@ Proof. exact on_open_no_resources. Qed.
    FAIL while the session stays open (then the session is released again, nothing stays
    registered), resources registered while connected or not — a connected client has had
    RegisterTM written successfully on its session and every resource it holds announced
-   on that session *)
+   on that session — or pending: its own RegisterRM could not be written on this session;
+   it is held all the same and C19_reannounce makes the next session carry it *)
 Theorem C19_registered_announced : forall evs,
   cl_connected (fst (crun cinit evs)) = true ->
   cl_tm (fst (crun cinit evs)) = true
-  /\ forall x, In x (cl_resources (fst (crun cinit evs))) -> In x (cl_rm (fst (crun cinit evs))).
+  /\ forall x, In x (cl_resources (fst (crun cinit evs))) ->
+       In x (cl_rm (fst (crun cinit evs))) \/ In x (cl_pending (fst (crun cinit evs))).
 Proof. exact registered_announced. Qed.
 
 (* ---- non-vacuity ---- *)
@@ -104,7 +118,7 @@ Proof. vm_compute. auto. Qed.
 Example C19_reannounce_nonvacuous :
   let a := [x61] in let b := [x62] in
   let r := crun cinit [CReconnect a true; CConnLost true; CReconnect a true;
-                       CRegisterResource 1 [x72]; CRegisterResource 0 [x7a]; CRegisterResource 0 [x64];
+                       CRegisterResource 1 [x72] true; CRegisterResource 0 [x7a] true; CRegisterResource 0 [x64] true;
                        CConnLost false; CReconnect b true] in
   map snd (snd r) = [[RegisterTM]; [RegisterTM]; [RegisterTM; RegisterRM [[x72]]; RegisterRM [[x64]; [x7a]]]]
   /\ forallb (fun cs => reannounced (fst cs) (snd cs)) (snd r) = true
@@ -116,9 +130,22 @@ Proof. vm_compute. auto 6. Qed.
    nothing registered; the next reconnect announces TM and the resource *)
 Example C19_registered_announced_nonvacuous :
   let a := [x61] in
-  let h := [CReconnect a true; CRegisterResource 1 [x72]; CConnLost true; CReconnect a false] in
+  let h := [CReconnect a true; CRegisterResource 1 [x72] true; CConnLost true; CReconnect a false] in
   let c1 := fst (crun cinit h) in
   let c2 := fst (crun cinit (h ++ [CReconnect a true])) in
   cl_connected c1 = false /\ cl_all c1 = 0 /\ cnt_of (cl_server c1) a = 1
   /\ cl_connected c2 = true /\ cl_tm c2 = true /\ cl_all c2 = 1 /\ cl_rm c2 = [(1, [x72])].
+Proof. vm_compute. auto 8. Qed.
+
+(* a resource whose first RegisterRM could not be written (write error on the open
+   session) is held and pending; the next session names it *)
+Example C19_failed_registration_nonvacuous :
+  let a := [x61] in
+  let h := [CReconnect a true; CRegisterResource 1 [x72] false] in
+  let c1 := fst (crun cinit h) in
+  let r := crun cinit (h ++ [CConnLost true; CReconnect a true]) in
+  snd (cstep (fst (crun cinit [CReconnect a true])) (CRegisterResource 1 [x72] false)) = []
+  /\ cl_resources c1 = [(1, [x72])] /\ cl_rm c1 = [] /\ cl_pending c1 = [(1, [x72])]
+  /\ map snd (snd r) = [[RegisterTM]; [RegisterTM; RegisterRM [[x72]]]]
+  /\ cl_rm (fst r) = [(1, [x72])] /\ cl_pending (fst r) = [].
 Proof. vm_compute. auto 8. Qed.
